@@ -254,6 +254,7 @@ fn enc_instr(strict: &Environment, ins: &Instruction, out: &mut String) {
         I::BuildMacro(n, off, flags) => write!(out, "BuildMacro {} {} {}", hx(n), off, flags).unwrap(),
         I::Return => out.push_str("Return"),
         I::Include(ignore) => write!(out, "Include {}", *ignore as u8).unwrap(),
+        I::CallBlock(n) => write!(out, "CallBlock {}", hx(n)).unwrap(),
         I::Add => out.push_str("Add"),
         I::Sub => out.push_str("Sub"),
         I::Mul => out.push_str("Mul"),
@@ -317,9 +318,6 @@ fn enc_prog(envs: &Envs, src: &str, ctx: &Value, fmt_kind: usize) -> String {
             Err(_) => return None,
         };
         let compiled = get_compiled_template(&tmpl);
-        if !compiled.blocks.is_empty() {
-            return None;
-        }
         // the context is the shared one announced by the `ctx` line
         let _ = ctx;
         let mut codes: Vec<(String, String, u32)> = vec![];
@@ -335,8 +333,14 @@ fn enc_prog(envs: &Envs, src: &str, ctx: &Value, fmt_kind: usize) -> String {
             }
             (body, n, includes)
         };
-        let (body, n, includes) = enc_code(&compiled.instructions);
+        let (body, n, mut includes) = enc_code(&compiled.instructions);
         codes.push(("-".into(), body, n));
+        // the blocks of the template itself (`@name`); templates that extend another one stay outside the model
+        for (name, instrs) in compiled.blocks.iter() {
+            let (body, n, inner) = enc_code(instrs);
+            includes |= inner;
+            codes.push((hx(&format!("@{}", name)), body, n));
+        }
         if includes {
             // the templates a generated program can include by name
             for name in INCLUDABLE {
@@ -1196,7 +1200,24 @@ impl Gen {
         self.locals.clear();
         self.macros.clear();
         let d = 1 + self.rng.below(3) as u32;
-        self.body(d, 4)
+        let mut out = self.body(d, 4);
+        if self.rich {
+            // top-level blocks (rendered in place and again through `self.name()`) and includes
+            let nb = self.rng.below(3);
+            for i in 0..nb {
+                let body = self.body(d.saturating_sub(1), 2);
+                out += &format!("{{% block blk{} %}}{}{{% endblock %}}", i, body);
+                if self.rng.chance(1, 2) {
+                    out += &format!("{{{{ self.blk{}() }}}}", self.rng.below(i + 1));
+                }
+            }
+            if self.rng.chance(1, 3) {
+                out += *self.rng.pick(&["{% include 'inc' %}", "{% include 'incdef' %}", "{% include 'nope' ignore missing %}",
+                    "{% include u2 ignore missing %}", "{% include 'nope' %}"]);
+                out += &self.stmt(0);
+            }
+        }
+        out
     }
 }
 
